@@ -48,6 +48,9 @@ def numstr(rng):
             s += bytes([48 + rng.below(10)])
     if rng.chance(1, 8):
         s += rng.choice([b"x", b"e5", b" ", b"\x00a", b"\x00b", b"."])
+    if rng.chance(1, 12):
+        # texts around and beyond the 115 cached bytes (zero padded: the value stays inside 64 bits)
+        s = b"0" * (rng.choice([113, 114, 115, 116, 120, 140]) - len(s)) + s.lstrip(b" \t\x7f-")
     return s
 
 
